@@ -139,7 +139,7 @@ static int safety(const char* path, uint64_t seed) {
 	long* shared = (long*)mmap(nullptr, 4096, PROT_READ | PROT_WRITE, MAP_SHARED | MAP_ANONYMOUS, -1, 0);
 	shared[0] = 0; shared[1] = 0;   // next case to run, evaluations
 	long crashes = 0;
-	while (shared[0] < (long)lines.size() && crashes < 20) {
+	while (shared[0] < (long)lines.size() && crashes < 6) {   // a defect that hangs or crashes shows up in the first few cases; do not spend hours on it
 		std::string detail;
 		std::string v = in_child([&]() -> std::string {
 			Rng rng(seed);
@@ -155,7 +155,7 @@ static int safety(const char* path, uint64_t seed) {
 					prev = c; curmap = map;
 				}
 				shared[0] = i;   // the case being executed
-				alarm(20);
+				alarm(10);
 				double x = lattice_to_double(map, c.x, (int)(c.t.back() / 4));
 				exercise(*tb, *ep, &x, 1);
 				double xx[2] = {x, 2.5}; exercise(*t2, *ep2, xx, 2);
@@ -176,7 +176,7 @@ static int safety(const char* path, uint64_t seed) {
 	for (int D = 3; D <= 9; D++) {
 		std::string detail;
 		std::string v = in_child([&]() -> std::string {
-			alarm(120);
+			alarm(30);
 			Rng rng(seed + D); TableSpec s; s.ndim = D;
 			for (int d = 0; d < D; d++) { uint32_t o = (uint32_t)((d + D) % 3); s.order.push_back(o); std::vector<double> k; for (uint32_t j = 0; j < 2 * o + 2 + (d == 0 ? 1 : 0); j++) k.push_back(j + 0.5 * (j % 2)); s.knots.push_back(k); }
 			s.coeffs.resize(s.ncoeffs()); for (auto& c : s.coeffs) c = (float)rng.range(-1, 1);
